@@ -121,7 +121,7 @@ PROPS = {
     "C05": dict(proj=proj_decisions, gen={"focus": ["cloop", "wloop"], "ploop_lit_in_loop": True, "shadow_loopvars": True}, hist="some",
                 nontrivial=lambda st, case: st.get("cloop_iters", 0) + st.get("wloop_iters", 0) >= 1,
                 rule=">= 1 loop iteration executed"),
-    "C06": dict(proj=proj_order, gen={"focus": ["ploop"]}, hist="some",
+    "C06": dict(proj=proj_order, gen={"focus": ["ploop"], "ploop_lit_in_loop": True}, hist="some",
                 nontrivial=lambda st, case: st.get("ploop", 0) >= 1,
                 rule=">= 1 parallel loop executed"),
     "C07": dict(proj=proj_order, gen={}, hist="some",
@@ -898,7 +898,7 @@ def _run(ctx, cfg, n_cases, pool, res):
                                                          "how": "re-run: tools/sched_family.job_register_in_callback((job_seed,))"}})
         res["notes"].append("registration from inside callbacks: %d runs in which it happened, %d later notifications checked" % (nreg, nlater))
     # C08: completion reported from inside an observer's update() ---------------------------------------
-    if prop in ("C08", "C01"):
+    if prop in ("C08", "C01", "C02"):
         nobs = 0
         for r in pool.map(job_observer_completion, [(seed * 7 + i,) for i in range(60 if tier == "quick" else 600)], chunksize=2):
             if r.get("skip"):
